@@ -27,7 +27,7 @@ use p3_circuit_prover::ConstraintProfile;
 use p3_field::{PrimeCharacteristicRing, PrimeField64};
 use vpcore::serde_json::{Value, json};
 use vpcore::{Ctx, Histo, Report, finish, quiet_catch};
-use vpe1::bus::{BusFinding, audit, ports, prepare, slot_sources};
+use vpe1::bus::{BusFinding, audit, ports, ports_from_matrices, prepare, slot_sources};
 use vpe1::explore::{SeenSet, Stats, explore, input_vectors};
 use vpe1::families::{families, families_scaled};
 use vpe1::prog::{Program, materialize, ref_eval, remove_call};
@@ -68,20 +68,49 @@ fn check_program(p: &Program, cs: &[F], h: Option<&Histo>) -> Option<Checked> {
     let m = materialize::<F, F>(p, cs).ok()?;
     let nodes = m.nodes.clone();
     let circuit = m.builder.build().ok()?;
-    let prim = match prepare(&circuit) {
-        Ok(x) => x,
-        Err(e) => {
-            if let Some(h) = h {
-                h.add(&format!("prep_err:{}", e.split(|c: char| !c.is_alphanumeric()).next().unwrap_or("")));
+    let sources = slot_sources(&nodes, &circuit);
+    // default packing for every program; programs with Horner chains also under the packings
+    // that change the schedule (packing factor 3 and 4, two lanes)
+    let n_horner = circuit.ops.iter().filter(|o| matches!(o, p3_circuit::ops::Op::Alu { kind: p3_circuit::ops::AluOpKind::HornerAcc, .. })).count();
+    let mut packings = vec![("default", TablePacking::default())];
+    if n_horner >= 2 {
+        packings.push(("alu1-k3", TablePacking::new(1, 1).with_horner_pack_k(3)));
+        packings.push(("alu1-k4", TablePacking::new(1, 1).with_horner_pack_k(4)));
+        packings.push(("alu2-k3", TablePacking::new(2, 2).with_horner_pack_k(3)));
+    } else if n_horner == 1 {
+        packings.push(("alu2-k2", TablePacking::new(2, 2)));
+    }
+    let mut findings: Vec<BusFinding> = vec![];
+    for (name, packing) in packings {
+        let ps = match ports_from_matrices(&circuit, &packing) {
+            Ok(x) => x,
+            Err(e) if e.starts_with("layout:") => vpcore::machinery_error(&format!("C09 cannot read preprocessed layout: {e}")),
+            Err(e) => {
+                if let Some(h) = h {
+                    h.add(&format!("prep_err:{}", e.split(|c: char| !c.is_alphanumeric()).nth(1).unwrap_or("")));
+                }
+                return None;
             }
-            return None;
+        };
+        for mut f in audit(&ps, &sources) {
+            if name != "default" {
+                f.detail = format!("[packing {name}] {}", f.detail);
+            }
+            if !findings.iter().any(|g: &BusFinding| g.key() == f.key()) {
+                findings.push(f);
+            }
         }
-    };
-    let ps = match ports(&circuit, &prim) {
-        Ok(x) => x,
-        Err(e) => vpcore::machinery_error(&format!("C09 cannot read preprocessed layout: {e}")),
-    };
-    let findings = audit(&ps, &slot_sources(&nodes, &circuit));
+    }
+    // the per-op view (before scheduling) must agree with the default matrices on balance
+    if let Ok(prim) = prepare(&circuit)
+        && let Ok(ps) = ports(&circuit, &prim)
+    {
+        for f in audit(&ps, &sources) {
+            if !findings.iter().any(|g| g.key() == f.key()) {
+                findings.push(f);
+            }
+        }
+    }
     if let Some(h) = h {
         h.add(if findings.is_empty() { "balanced" } else { "unbalanced" });
     }
@@ -159,7 +188,7 @@ fn main() {
     for (fi, fam) in fams.iter().enumerate() {
         let stats = Stats::default();
         let seen_prune = SeenSet::default();
-        let stop_at = (0.92 * (fi as f64 + 1.0) / fams.len() as f64 + 0.04).min(0.95);
+        let stop_at = 0.93; let _ = fi; // families run smallest first; whatever does not fit is cut and reported
         let t0 = ctx.elapsed_s();
         explore::<F, F>(fam, &cs, &ctx, stop_at, &seen_keys, &seen_prune, &stats, &|_p, _m| {}, &|p, _m| {
             let Some(c) = check_program(p, &cs, Some(&histo)) else { return };
